@@ -48,8 +48,11 @@ def check(ctx):
     if not ctx.quick:
         cells += [("si_prim", (1, 1, 1)), ("fcc_conv", (1, 1, 1)), ("wurtzite", (1, 1, 1)), ("tet_bc", (1, 1, 1)), ("hex1", (2, 1, 1)), ("tri1", (2, 2, 2)), ("sc1", (2, 1, 1)), ("cscl", (1, 1, 1))]
     import spglib
-    for cname, diag in cells:
-        sc = make_supercell(base_cells()[cname], diag, rng=rng, shuffle=True)
+    # species twins: an ordered alloy first, then the pure metal on bit-identical sites (more symmetric)
+    alloy = make_supercell(base_cells()["fcc_conv"], (1, 1, 1))
+    alloy = dict(alloy, numbers=np.array([13, 13, 13, 79]), name="fcc_conv-1x1x1-alloy")
+    for cname, diag in cells + [("given", alloy), ("given", make_supercell(base_cells()["fcc_conv"], (1, 1, 1)))]:
+        sc = diag if cname == "given" else make_supercell(base_cells()[cname], diag, rng=rng, shuffle=True)
         N = len(sc["numbers"])
         at = atoms_of(sc)
         L = np.asarray(sc["lattice"], float)
